@@ -60,7 +60,14 @@ func genC13(seed uint64, r *rng.Rand) *Plan {
 	if g.R.Chance(0.6) {
 		at = g.R.Range(1, 12)
 	}
-	switch g.R.Intn(7) {
+	switch g.R.Intn(9) {
+	case 7:
+		// a server that stops reading: writes block once the window is full
+		p.Faults = append(p.Faults, &Fault{On: "exec", N: at, Act: "stall", Server: g.R.Intn(p.Layout.Servers), Count: []int{0, 16, 300, 5000}[g.R.Intn(4)]})
+	case 8:
+		// connections take an hour to establish
+		p.Faults = append(p.Faults, &Fault{On: "exec", N: at, Act: "dialdelay", Dur: 3600000})
+		p.Faults = append(p.Faults, &Fault{On: "exec", N: at, Act: "reset", Server: g.R.Intn(p.Layout.Servers)})
 	case 0:
 		p.Faults = append(p.Faults, &Fault{On: "exec", N: at, Act: "zkdelay", Dur: 3600000})
 		p.Faults = append(p.Faults, &Fault{On: "exec", N: at, Act: "reset", Server: p.Layout.Meta})
@@ -98,6 +105,10 @@ func genC13(seed uint64, r *rng.Rand) *Plan {
 
 func waitState(site string) string {
 	switch {
+	case strings.Contains(site, "simnet:Write"), strings.Contains(site, "region/client.go:send:lock"):
+		return "blocked-in-write"
+	case strings.Contains(site, "simnet:Dial"):
+		return "dialling"
 	case strings.Contains(site, "getRegionAndClientForRPC"):
 		return "waiting-for-region"
 	case strings.Contains(site, "sleepAndIncreaseBackoff"):
